@@ -15,7 +15,7 @@ TIER_OPS = [
     # queries / validate: cannot change anything, but C13 must see that they do not
     "find", "timestamps", "getNonEntries", "getValues", "validate", "entries", "eq",
 ]
-LABELS = ["a", "b", "c", "ab", "é", "a", "b", "H%"]
+LABELS = ["a", "b", "c", "ab", "é", "a", "b", "H%", "e\u0301", "\u212b"]  # (precomposed and decomposed forms of one letter; a singleton)
 HOSTILE_LABELS = [" a", "b ", " c d ", "\ta", "a\n", "", "\u00a0nb", "wide\u3000", "\u2003em", "ls\u2028", "\x85nel", "\x1fus"]  # padding of every kind str.strip() removes
 
 
